@@ -14,7 +14,8 @@
 (*                parent are the structurally enclosing scope (so that      *)
 (*                look-ups walk the unit's own chain)                        *)
 (*  ScopeOnChain  every symbol is attached to a scope on the chain of the   *)
-(*                scope that contains the occurrence                        *)
+(*                scope that contains the occurrence (kind suffix           *)
+(*                "-unattached": the symbol has no scope at all)            *)
 (*  Resolvable    every variable used is declared, imported or an associate *)
 (*                name somewhere on that chain (host association = outer    *)
 (*                scopes of the chain).  Exempt: derived-type components    *)
@@ -46,7 +47,7 @@ ResolvableOK(S, o) == MustResolve(o) => (o.name \in Visible(S, o.at) \/ Undecida
 \* offenders as <<clause, name, kind>>
 Offenders(S, O) ==
   {<<"PL", S[i].name, S[i].kind>> : i \in {j \in 1..Len(S) : ~ParentLinkOK(S[j])}}
-  \cup {<<"SC", O[i].name, O[i].kind>> : i \in {j \in 1..Len(O) : ~ScopeOnChainOK(S, O[j])}}
+  \cup {<<"SC", O[i].name, O[i].kind \o (IF O[i].scope = 0 THEN "-unattached" ELSE "")>> : i \in {j \in 1..Len(O) : ~ScopeOnChainOK(S, O[j])}}
   \cup {<<"RS", O[i].name, O[i].kind>> : i \in {j \in 1..Len(O) : ~ResolvableOK(S, O[j])}}
 WellFormed(S, O) == Offenders(S, O) = {}
 =============================================================================
